@@ -30,29 +30,37 @@ SearchClass(g) == CASE g \in {"NEARSQUARE", "RECTANGLE"} -> "Bisection1D"
                     [] g \in {"BIZONEDRECTANGLE", "BIRECTANGLECONSTRAINED"} -> "BisectionZD"
                     [] g = "ROWWISE" -> "RowWiseModifiedBisectionSearch"
 
-VARIABLES geom, stage, ver, design, search, hist, nset
-vars == <<geom, stage, ver, design, search, hist, nset>>
+VARIABLES geom, stage, ver, design, search, hist, nset, gens
+vars == <<geom, stage, ver, design, search, hist, nset, gens>>
 
 \* what the manager holds right now: object identities <<slot, version>>
 Held(f, r) == [s \in Slots |-> IF s = "flow_type" THEN f ELSE IF s = "flow_rate" THEN r ELSE <<s, ver[s]>>]
 
 Init == /\ geom \in Geoms /\ stage = "set" /\ ver = [s \in ObjSlots |-> 1]
-        /\ design = <<>> /\ search = <<>> /\ hist = <<>> /\ nset = 0
+        /\ design = <<>> /\ search = <<>> /\ hist = <<>> /\ nset = 0 /\ gens = <<>>
 
 SetDesign(f, r) == /\ stage \in {"set", "designed"} /\ nset < 2
                    /\ design' = Held(f, r) /\ stage' = "designed" /\ nset' = nset + 1
                    /\ hist' = Append(hist, <<"set_design", f, r>>)
-                   /\ UNCHANGED <<geom, ver, search>>
+                   /\ UNCHANGED <<geom, ver, search, gens>>
 \* a setter is called again: the manager holds a NEW object; an existing design keeps the one it captured
 ReSet(s) == /\ stage \in {"set", "designed"} /\ ver[s] = 1 /\ Len(hist) < 4
             /\ ver' = [ver EXCEPT ![s] = 2]
             /\ hist' = Append(hist, <<"reset", s>>)
-            /\ UNCHANGED <<geom, stage, design, search, nset>>
+            /\ UNCHANGED <<geom, stage, design, search, nset, gens>>
 FindDesign == /\ stage = "designed"
-              /\ search' = [cls |-> SearchClass(geom), args |-> [s \in Slots \ {"geometry"} |-> design[s]], method |-> "HYBRID"]
+              /\ search' = [cls |-> SearchClass(geom), args |-> [s \in Slots \ {"geometry"} |-> design[s]], method |-> "HYBRID",
+                             geometry |-> design["geometry"]]
               /\ stage' = "searching" /\ hist' = Append(hist, <<"find_design">>)
-              /\ UNCHANGED <<geom, ver, design, nset>>
-Next == (\E f \in Flows, r \in Rates : SetDesign(f, r)) \/ (\E s \in Replaceable : ReSet(s)) \/ FindDesign
+              /\ UNCHANGED <<geom, ver, design, nset, gens>>
+\* RowWise: the search generates fields at several stages (the two bounding spacings, the bisection midpoints, the exhaustive tail, the
+\* one-borehole probe does not generate); EVERY generation is handed the rotation window, rotation step and outlines of the captured
+\* geometry - none falls back to the generator's defaults (-90 .. 0 degrees)
+GenStages == {"upper", "lower", "bisect", "tail"}
+Generate(st) == /\ stage = "searching" /\ geom = "ROWWISE" /\ Len(gens) < 4
+                /\ gens' = Append(gens, [stage |-> st, geometry |-> search.geometry])
+                /\ UNCHANGED <<geom, stage, ver, design, search, hist, nset>>
+Next == (\E f \in Flows, r \in Rates : SetDesign(f, r)) \/ (\E s \in Replaceable : ReSet(s)) \/ FindDesign \/ (\E st \in GenStages : Generate(st))
 Spec == Init /\ [][Next]_vars
 
 \* the last set_design call in the history and the versions held at that moment
@@ -63,7 +71,10 @@ Expected == [s \in Slots |-> IF s = "flow_type" THEN hist[LastSet][2] ELSE IF s 
 \* C20 (and C13/C17): what the search works with is what the user gave in the LAST set_design call
 Forwarded == stage = "searching" => \A s \in Slots \ {"geometry"} : search.args[s] = Expected[s]
 DesignHolds == stage # "set" => design = Expected
-Emit == stage = "searching" => PrintT(ToJson([geom |-> geom, hist |-> hist, cls |-> search.cls,
+\* bound to the code by the Search replay (mode RW): the recorded arguments of every generator call of one search are identical
+\* and none is a default (harness/judge.py SameGeneratorArguments)
+GeneratorGetsUserGeometry == \A i \in 1..Len(gens) : gens[i].geometry = Expected["geometry"]
+Emit == (stage = "searching" /\ gens = <<>>) => PrintT(ToJson([geom |-> geom, hist |-> hist, cls |-> search.cls,
                                               flow |-> Expected["flow_type"], rate |-> Expected["flow_rate"],
                                               vers |-> [s \in Replaceable |-> Expected[s][2]]]))
 =============================================================================
